@@ -204,9 +204,12 @@ impl Drop for ThreadPool {
     fn drop(&mut self) {
         #[cfg(humphrey_verif)]
         crate::verif::point("Pool_DropBegin", self.recovery_thread.is_some() as i64, 0);
+        // Detach the recovery thread, as `stop` does. It owns a sender of its own channel and loops forever,
+        // so joining it here blocked the drop of a started pool on which `stop` had not been called. The workers
+        // finish the queued tasks and exit once the task sender is dropped with the rest of the pool.
         if let Some(mut recovery_thread) = self.recovery_thread.take() {
             if let Some(thread) = recovery_thread.0.take() {
-                thread.join().unwrap();
+                drop(thread);
             }
         }
 
